@@ -786,3 +786,26 @@ def s_option_map(ip, st, fr, name, args, c, site):
 def some_from_term(ip, st, t, c):
     rty = c['generics'][1] if len(c.get('generics', [])) > 1 else None
     return some(ip.sym_value(st, t, rty) if rty else t)
+
+
+@S('std::slice::<impl [T]>::sort_by_key', 'std::slice::<impl [T]>::sort', 'core::slice::<impl [T]>::sort_unstable', 'core::slice::<impl [T]>::sort_unstable_by_key')
+def s_sort(ip, st, fr, name, args, c, site):
+    """sorting replaces the container by its sorted permutation (same length); the ordering facts are instantiated by
+    the rules that need them (term ('sorted', old, key closure path or None))"""
+    r, cont = container_ref(ip, st, args[0])
+    if not isinstance(cont, (X.Sym, X.ListV)):
+        raise X.Unanalysable('sort of %r' % (cont,), site)
+    keyf = None
+    if len(args) > 1:
+        cv = args[1]
+        while isinstance(cv, X.Ref):
+            cv = ip.load(st, cv.cell, cv.path)
+        keyf = cv.path if isinstance(cv, X.Clo) else ip.to_term(st, cv)
+    old = ip.to_term(st, cont)
+    t = ('sorted', old, keyf)
+    T.typed(('len', t), 'usize')
+    st.assume(T.mk_cmp('eq', ('len', t), ip.len_of(st, cont)))
+    ty = cont.ty if isinstance(cont, X.Sym) else 'std::vec::Vec<?>'
+    ip.store(st, r.cell, r.path, X.Sym(t, ty))
+    st.calls.append((name, (old, keyf)))
+    return one(X.UNIT)
